@@ -5,6 +5,7 @@ import (
 	"fmt"
 	"os"
 	"path/filepath"
+	"sort"
 	"strconv"
 	"strings"
 )
@@ -275,6 +276,11 @@ func FindSequences(dataDir, dbName string) ([]SequenceData, error) {
 		seq.Filenode = filenode
 		sequences = append(sequences, *seq)
 	}
+
+	// tables is a map: its iteration order is random, so report in filenode order
+	sort.Slice(sequences, func(i, j int) bool {
+		return sequences[i].Filenode < sequences[j].Filenode
+	})
 
 	return sequences, nil
 }
